@@ -561,4 +561,24 @@ theorem build_exact_partial (doc : Doc) (d : SchemaD) (bts : List TypeD) (v : Va
   · simp only [hE, Bool.false_eq_true, if_false, hext, hcyc, hrx, toSchemaD]
     exact congrArg Except.ok hd.symm
 
+/-- non-vacuity of `ValidExt`: every extension-free valid document (e.g. `exDoc` of `C11_exact.lean`) whose members
+    have unique names satisfies it; the S8-free generated documents of the correspondence are the instances with
+    extensions (the hypotheses `mergedSame`/`directivesSame` are exactly what the check's S8 classification tests). -/
+theorem validExt_of_noext (doc : Doc) (d : SchemaD) (v : ValidNoExt doc d)
+    (hu : ∀ r ∈ d.types, (r.fields.map (·.name)).Nodup ∧ (r.inputFields.map (·.name)).Nodup ∧ (r.values.map (·.name)).Nodup ∧
+      r.members.Nodup ∧ r.interfaces.Nodup) : ValidExt doc d d.types := by
+  have hm := merged_noext doc v.noTypeExt
+  obtain ⟨hts, hds, _⟩ := declared_parts doc d v.declares
+  rw [hm] at hts
+  exact
+    { uniqueTypes := v.uniqueTypes, uniqueDirectives := v.uniqueDirectives, oneSchema := v.oneSchema,
+      noBuiltinNames := v.noBuiltinNames,
+      extTargets := by intro e he; rw [v.noTypeExt] at he; simp at he,
+      declares := v.declares, baseBuilds := hts,
+      mergedSame := by intro t _; rw [hm],
+      directivesSame := by intro dd _; rw [hm],
+      membersUnique := hu, noThunkCycle := v.noThunkCycle, noEagerCycleBase := v.noEagerCycle, noEagerCycle := v.noEagerCycle,
+      noSpecified := v.noSpecified,
+      rootsOk := ⟨_, v.rootsOk, by rw [v.noSchemaExt]; rfl⟩ }
+
 end PyGql.Props.C11
